@@ -31,6 +31,10 @@ import (
 	proxyv1alpha1 "github.com/kubewharf/kubegateway/pkg/apis/proxy/v1alpha1"
 	"github.com/kubewharf/kubegateway/pkg/ratelimiter/util"
 
+	apierrors "k8s.io/apimachinery/pkg/api/errors"
+	k8sruntime "k8s.io/apimachinery/pkg/runtime"
+	clienttesting "k8s.io/client-go/testing"
+
 	gatewayfake "github.com/kubewharf/kubegateway/pkg/client/kubernetes/fake"
 
 	"verifharness/bed"
@@ -91,6 +95,7 @@ func TestCheck(t *testing.T) {
 		r.Require(r.Counter("histories_with_api_backed_store") >= 100 && r.Counter("reclaimed_checked_in_the_api") >= 200 && r.Counter("api_store_leader_restarts") >= 100, "the API-backed store variant observed too little")
 		r.Require(r.Counter("api_store_moves_to_a_new_server") >= 100 && r.Counter("silent_instances_with_conditions_at_a_move") >= 40 && r.Counter("reclaimed_on_a_server_that_never_heard_from_the_instance") >= 40,
 			"too few moves of the shards to a new server with an instance that went silent before the move")
+		r.Require(r.Counter("unknown_passes_with_refused_api_deletes")+r.Counter("timeout_passes_with_refused_api_deletes") >= 40, "too few cleanup passes during which the API refused a delete")
 		r.Require(r.Counter("upstreams_deleted_and_recreated") >= 50 && r.Counter("instances_with_identity_longer_than_63") >= 50, "too few upstream deletions / long identities")
 		r.Require(r.Counter("histories") >= 100, "too few histories")
 		r.Require(r.Counter("reclaimed_with_conditions") >= 100 && r.Counter("reclaimed_with_counts") >= 100, "too few dead instances with recorded state were reclaimed")
@@ -142,6 +147,9 @@ type history struct {
 	k8s        bool         // API-backed store (write-through) over a fake clientset
 	api        *gatewayfake.Clientset
 	gen        int    // number of times the shards moved to a new server process
+	faultArm   int32  // API-backed store: number of condition deletes the API will refuse next (fault injection)
+	faultHits  int32  // ... and how many it has refused so far
+	noFaults   bool   // closing the history: no more faults
 	realIDs    bool   // realistic identities (see identity)
 	twin       string // identity the next joining instance takes
 	realtime   bool   // silences are real (no heartbeat for > 3 s of wall time) instead of a back-dated heartbeat
@@ -197,6 +205,15 @@ func newHistory(r *vkit.R, g *vkit.Rand, i int) *history {
 		o := bed.LimiterOptions{LeadAll: true, Shards: 1 + i%3}
 		if i%5 == 2 { // the API-backed store (every save and delete goes to the API first), over a fake clientset
 			h.k8s, h.api = true, gatewayfake.NewSimpleClientset()
+			// fault injection: the API refuses a condition delete now and then (the store does not retry such an error; the
+			// next unknown-condition pass does)
+			h.api.PrependReactor("delete", "ratelimitconditions", func(clienttesting.Action) (bool, k8sruntime.Object, error) {
+				if atomic.AddInt32(&h.faultArm, -1) >= 0 {
+					atomic.AddInt32(&h.faultHits, 1)
+					return true, nil, apierrors.NewServiceUnavailable("injected fault")
+				}
+				return false, nil, nil
+			})
 			o.Store, o.GatewayClient = "k8s", h.api
 			r.Count("histories_with_api_backed_store", 1)
 		}
@@ -486,6 +503,21 @@ func (h *history) moveToNewServer() {
 		}
 	}
 	h.logf("all shards move to the new server %s (loads the conditions from the API); %d silent instance(s) never heartbeat to it", next, silent)
+}
+
+// arm lets the API refuse the next one or two condition deletes (API-backed store, 15 % of the passes, never while the history
+// is being closed); disarm stops that and tells how many deletes were refused since arm.
+func (h *history) arm() int32 {
+	hits := atomic.LoadInt32(&h.faultHits)
+	if h.k8s && !h.noFaults && h.g.Chance(0.25) {
+		atomic.StoreInt32(&h.faultArm, int32(h.g.Range(1, 2)))
+	}
+	return hits
+}
+
+func (h *history) disarm(hits0 int32) int32 {
+	atomic.StoreInt32(&h.faultArm, 0)
+	return atomic.LoadInt32(&h.faultHits) - hits0
 }
 
 // apiLeftovers: with the API-backed store, the condition objects of the instance that are still in the API.
@@ -786,6 +818,7 @@ func (h *history) passTimeout() {
 			expiring = append(expiring, w)
 		}
 	}
+	hitsT := h.arm()
 	busy := h.withTraffic(func() { h.srv.Handle.CleanupTimeoutClient() })
 	h.r.Count("timeout_passes", 1)
 	// the deletion goroutine has nothing to wait for; poll for its effects (labelled conditions and counts of the expiring
@@ -803,21 +836,28 @@ func (h *history) passTimeout() {
 		h.r.Inconclusive("a cleanupTimeoutClient goroutine was still present 30 s after the pass")
 		return
 	}
-	ok := vkit.WaitFor(d, func() bool {
-		s := h.snap()
-		for _, w := range expiring {
-			if len(s.count[w.id]) > 0 || h.labelled(w.id) {
-				return false
+	nT := h.disarm(hitsT) // the pass and its goroutine are over
+	if nT == 0 {
+		ok := vkit.WaitFor(d, func() bool {
+			s := h.snap()
+			for _, w := range expiring {
+				if len(s.count[w.id]) > 0 || h.labelled(w.id) {
+					return false
+				}
 			}
+			return true
+		})
+		if !ok {
+			atomic.AddInt32(&watchdogFired, 1)
+			h.r.Count("timeout_pass_effects_not_seen_within_watchdog", 1)
 		}
-		return true
-	})
-	if !ok {
-		atomic.AddInt32(&watchdogFired, 1)
-		h.r.Count("timeout_pass_effects_not_seen_within_watchdog", 1)
 	}
 	for _, w := range expiring {
 		w.expired = true
+	}
+	if nT > 0 {
+		h.r.Count("timeout_passes_with_refused_api_deletes", 1)
+		h.logf("  the API refused %d condition delete(s) of the timeout pass", nT)
 	}
 	h.logf("timeout pass (expired now: %d)", len(expiring))
 	pass := "timeout"
@@ -836,7 +876,9 @@ func (h *history) passTimeout() {
 func (h *history) passUnknown() {
 	h.heartbeatLive()
 	before := h.snap()
+	hits0 := h.arm()
 	busy := h.withTraffic(func() { h.srv.Handle.CleanupUnknownCondition() })
+	faulted := h.disarm(hits0)
 	h.r.Count("unknown_passes", 1)
 	after := h.snap()
 	h.logf("unknown-condition pass")
@@ -850,6 +892,13 @@ func (h *history) passUnknown() {
 	}
 	if after.bad != "" {
 		h.violate("C18/dead-instance/total-not-exact", "after the cleanup passes "+after.bad)
+		return
+	}
+	if faulted > 0 {
+		// The API refused deletes during this pass: what it could not delete is retried by the next unknown-condition pass. The
+		// dead instances are judged after a pass the API did not disturb ("within the cleanup period" counts working passes).
+		h.r.Count("unknown_passes_with_refused_api_deletes", 1)
+		h.logf("  the API refused %d condition delete(s) during the pass; the dead instances are judged after the next undisturbed pass", faulted)
 		return
 	}
 	var reclaimed []*inst
@@ -1056,6 +1105,7 @@ func (h *history) run() {
 		}
 	}
 	// close the history: everything silent goes through both kinds of pass
+	h.noFaults = true
 	if !h.dead {
 		h.passTimeout()
 	}
